@@ -39,7 +39,35 @@ def enc(x):
     return base64.b64encode(pickle.dumps(x)).decode()
 
 
+def check_mol_mode(G1, G2, fails, tags):
+    """molecule-level mode (mcs_mol=True): whole fragments are assigned to fragments; the result must still be an injective,
+    label- and bond-preserving map and the two directions mutually inverse"""
+    try:
+        M = MCSMatcher(node_attrs=["element"], node_defaults=["*"], edge_attrs=["order"])
+        M.find_common_subgraph(G1, G2, mcs_mol=True)
+        a, b = M.get_mappings("G1_to_G2"), M.get_mappings("G2_to_G1")
+    except Exception as ex:
+        fails.append({"function": "Matcher.MCSMatcher(mcs_mol)", "violations": ["raised %r" % (ex,)], "pickle": enc((G1, G2)), "tags": tags})
+        return
+    viol = []
+    for x in a:
+        if len(set(x.values())) != len(x):
+            viol.append("mcs_mol: mapping %s is not injective" % sorted(x.items()))
+            break
+        if not all(k in G1 and v in G2 and G1.nodes[k].get("element", "*") == G2.nodes[v].get("element", "*") for k, v in x.items()):
+            viol.append("mcs_mol: mapping does not preserve elements")
+            break
+        if any((k1 in x and k2 in x) and (not G2.has_edge(x[k1], x[k2]) or G2[x[k1]][x[k2]].get("order") != d.get("order")) for k1, k2, d in G1.edges(data=True)):
+            viol.append("mcs_mol: a bond between mapped atoms is not preserved")
+            break
+    if len(a) != len(b) or any({v: k for k, v in x.items()} != y for x, y in zip(a, b)):
+        viol.append("mcs_mol: G1_to_G2 and G2_to_G1 are not mutually inverse")
+    if viol:
+        fails.append({"function": "Matcher.MCSMatcher(mcs_mol)", "violations": viol, "pickle": enc((G1, G2)), "tags": tags})
+
+
 def check_pair(tw, G1, G2, fails, tags):
+    check_mol_mode(G1, G2, fails, tags)
     truth = max_common(G1, G2)
     for cls, name in ((MCSMatcher, "Matcher.MCSMatcher"), (MCSMatcherOld, "MTG.MCSMatcher")):
         for mcs in (True, False):
